@@ -567,7 +567,13 @@ func stlWriteBytes(s *astisub.Subtitles) (b []byte, out string) {
 		}
 	}()
 	var buf bytes.Buffer
-	if err := s.WriteToSTL(&buf); err != nil {
+	switch err := writeWith("stl", s, &buf); err {
+	case nil:
+	case errImpure:
+		return nil, "impure: the writer modified the cue list it was given"
+	case errNondet:
+		return nil, "nondet: writing the same list twice gave different bytes"
+	default:
 		return nil, "err"
 	}
 	return buf.Bytes(), "ok"
